@@ -6,6 +6,7 @@ import time
 from .. import codec, common, container, pyavro
 
 PROP = "C05"
+THOROUGH_SEEDS = 2        # seeds per thorough run (bin/check)
 
 READERS = [{"kind": "slice"}, {"kind": "chunks", "sched": [1]}, {"kind": "chunks", "sched": []}, {"kind": "bufreader", "cap": 1},
            {"kind": "bufreader", "cap": 7}, {"kind": "bufreader", "cap": 8192}, {"kind": "chunks", "sched": [3, 1, 2]}]
